@@ -185,8 +185,17 @@ static int URI_FUNC(RemoveBaseUriImpl)(URI_TYPE(Uri) * dest,
 						}
 	/* [10/50]	   else */
 					} else {
+						if (!URI_FUNC(IsHostSet)(absSource) && !absSource->absolutePath
+								&& ((domainRootMode == URI_TRUE) || absBase->absolutePath)) {
+							/* Neither an absolute path nor a path relative to an absolute
+							 * base path resolves to a path that does not start with "/" */
+							dest->scheme = absSource->scheme;
+							if (!URI_FUNC(CopyPath)(dest, absSource, memory)) {
+								return URI_ERROR_MALLOC;
+							}
 	/* [11/50]	      if domainRootMode then */
-						if (domainRootMode == URI_TRUE) {
+						} else if ((domainRootMode == URI_TRUE)
+								|| (absSource->absolutePath && !absBase->absolutePath)) {
 	/* [12/50]	         undef(T.authority); */
 							/* NOOP */
 	/* [13/50]	         if (first(A.path) == "") then */
